@@ -17,7 +17,9 @@ type E map[string]interface{}
 
 // W is a trace writer.
 type W struct {
-	f *os.File
+	// NoSync disables the flush after every event (set it only for huge single-threaded traces).
+	NoSync bool
+	f      *os.File
 	b *bufio.Writer
 	n int
 }
@@ -49,6 +51,10 @@ func (w *W) Emit(e E) {
 	w.b.Write(bs)
 	w.b.WriteByte('\n')
 	w.n++
+	if !w.NoSync {
+		// flushed per event so that a trace survives a runtime fatal error in the code under test
+		w.b.Flush()
+	}
 }
 
 // N is the number of events written.
